@@ -7,6 +7,7 @@ RULE = ('rrect search p_rr_bbox on the implementation: every pixel of draw() (bo
         'transparent styles (no fill, and no stroke colour or width 0) draw nothing; random small/medium shapes, stroke widths up to 40. '
         'The correspondence of styled_bounding_box / draw / pixels is the rr_styled suite of the C06 part.')
 PARTIAL = []
+ASSUMPTIONS = ['rrect: see the C06 rrect part (styled_ok range; class K06_rrect_fill_outside_stroke excluded where stated)']
 
 
 def cases(tier, rng):
